@@ -22,6 +22,21 @@ class _Obj:
         return "<obj>"
 
 
+def exc_text(tsel):
+    # exception texts a failing handler may carry (finite corpus, chosen by symbolic index)
+    if tsel == 0:
+        return "boom"
+    if tsel == 1:
+        return ""
+    if tsel == 2:
+        return "two\nlines"
+    if tsel == 3:
+        return "\n"
+    if tsel == 4:
+        return "caf\u00e9 \u2028 \x00"
+    return "x" * 300
+
+
 def make_server(hsel, text="boom"):
     s = SRV.MCPServer("srv", "1.0")
 
@@ -257,3 +272,20 @@ def _in(v, lst):
         if x == v:
             return True
     return False
+
+
+def near_version(i, mode, k, c):
+    """requested version within one edit of a supported one: mode 0 = append c, 1 = prepend c, 2 = substitute position k by c"""
+    base = VER.SUPPORTED_VERSIONS[0] if i == 0 else (VER.SUPPORTED_VERSIONS[1] if i == 1 else VER.SUPPORTED_VERSIONS[-1])
+    if mode == 0:
+        v = base + c
+    elif mode == 1:
+        v = c + base
+    else:
+        v = base[:k] + c + base[k + 1:]
+    return init_version(0, v, 0)
+
+
+def dispatch_exc(method, has_id, rid, psel, hsel, tsel):
+    """failing handlers with every exception text of the corpus (incl. empty and multi-line)"""
+    return dispatch(method, has_id, rid, psel, "x", hsel, exc_text(tsel))
